@@ -499,8 +499,8 @@ func init() {
 		Rule:        "(1) typed expressions (all operators, calls, closures, writes through called functions, planted faults) embedded in ~35 placements: used/discarded, function tail/return/non-tail/mid-block, assignment, argument, array element (first and after constants), if arms incl. negated condition, while/for bodies at top level and in functions, yielded, top-level return, operand depth 1..3 via typed identity wrappers on either side, each compared with the reference answer for the plain expression; (2) rewrites x=x+1 / x=1+x / t=x;x=t+1, e op e / t=e;t op t, if !c A else B / if c B else A, while with negated condition, at top level and inside functions, REPL and script mode; (3) enumerated non-boolean conditions (13 values x 5 bodies x 8 statement forms x 3 nestings) must be type errors everywhere without running the body. non-trivial = expression of >= 3 nodes (1), every case (2,3); distinct by prelude+expression / variant text.",
 		Assumptions: []string{"expressions whose plain evaluation the reference finds ambiguous or nil-valued are dropped"},
 		Families: []core.Family{
-			{Name: "expr", Count: countFn(5000, 400000), Run: c12Expr},
-			{Name: "rewrite", Count: countFn(4000, 200000), Run: c12Rewrites},
+			{Name: "expr", Count: countFn(5000, 150000), Run: c12Expr},
+			{Name: "rewrite", Count: countFn(4000, 100000), Run: c12Rewrites},
 			{Name: "cond", Count: func(string) int { return 13 * 5 * 8 * 3 }, Run: c12Cond},
 		},
 		Floors: []core.Floor{{Key: "placements_run", Quick: 60000, Thor: 8000000}, {Key: "tag:placement:", Quick: 30, Thor: 30}, {Key: "tag:rewrite:", Quick: 5, Thor: 5}, {Key: "tag:cond:", Quick: 20, Thor: 20}, {Key: "nontrivial", Quick: 3000, Thor: 300000}},
